@@ -94,6 +94,21 @@ fn judge_function(acc: &mut O1Acc, funcs: &[FunctionDump], fi: usize, ops: &OpTa
     rep
 }
 
+/// hashes of the generated programs that are valid by construction (the model's resolver finds nothing
+/// wrong with them): the compiler has to accept these
+fn valid_by_construction(thorough: bool) -> std::collections::HashSet<u64> {
+    let mut set = std::collections::HashSet::new();
+    let all = c05::cases_for_c04(thorough).into_iter().chain(c06::cases_for_c04(thorough)).chain(c07::cases_for_c04(thorough)).chain(c08::cases_for_c04(thorough)).chain(c18::cases_for_c04(thorough));
+    for c in all {
+        let prog = std::sync::Arc::new(c.prog.clone());
+        let res = crate::mresolve::Resolver::new().resolve_program(&prog);
+        if res.unsupported.is_empty() {
+            set.insert(fnv64(&print_program(&prog, false)));
+        }
+    }
+    set
+}
+
 fn corpus_sources(ctx: &Ctx, thorough: bool) -> Vec<(&'static str, String)> {
     let mut v: Vec<(&'static str, String)> = Vec::new();
     for s in corpus::load_scripts(&ctx.repo_dir) {
@@ -329,6 +344,8 @@ pub fn run(ctx: &Ctx) -> Report {
     let thorough = ctx.thorough();
     let (ops, ops_pairs) = opcode_table(ctx);
     let sources = corpus_sources(ctx, thorough);
+    let must_compile = valid_by_construction(thorough);
+    let must_compile_ref = &must_compile;
     let n_sources = sources.len();
     let mut fam_count: BTreeMap<String, usize> = BTreeMap::new();
     for (f, _) in &sources {
@@ -355,7 +372,15 @@ pub fn run(ctx: &Ctx) -> Report {
                         judge_function(&mut acc, &r.functions, fi, ops_ref, src, family, finding_active);
                     }
                 }
-                None => acc.rejected += 1,
+                None => {
+                    acc.rejected += 1;
+                    if must_compile_ref.contains(&fnv64(src)) {
+                        acc.violations.push((
+                            format!("[{}] the compiler did not accept a generated program that is valid by construction (rejected, or it panicked)", family),
+                            json!({"family": family, "source": src, "problem": "valid program not accepted by the compiler"}),
+                        ));
+                    }
+                }
             }
         }
         // conformance on every 10th batch (quick) / every batch (thorough): run with the instruction trace
